@@ -25,6 +25,10 @@ def plan(tier, seed):
     n, k = (160, 8) if tier == 'quick' else (4000, 16)
     for i, (a, b) in enumerate(split_range(n, k)):
         specs.append({'gen': 'real-ledger', 'n': b - a, 'shard': 400 + i, 'seed': seed, 'tier': tier})
+    n, k = (160, 4) if tier == 'quick' else (4000, 16)
+    for i, (a, b) in enumerate(split_range(n, k)):
+        # the asyncio read path against the naive model (before + after + pending is the text received there too)
+        specs.append({'gen': 'async-model', 'n': b - a, 'shard': 450 + i, 'seed': seed, 'tier': tier})
     return specs
 
 
@@ -32,6 +36,9 @@ def run_shard(spec, acc):
     spec = dict(spec, prop=ID)
     if spec.get('gen') == 'real-ledger' or (isinstance(spec.get('replay'), dict) and spec['replay'].get('real')):
         return RL.run(spec, acc)
+    if spec.get('gen') == 'async-model' or (isinstance(spec.get('replay'), dict) and 'calls' in spec['replay']):
+        from . import _async_model as AM
+        return AM.run(spec, acc)
     def make(run, acc):
         led = Ledger(run, acc)
         run.ledger = led
